@@ -3,10 +3,10 @@
 CONSTANTS
   Codecs = {"VP8"}
   Mtus = {40}
-  MaxFrames = 3
+  MaxFrames = 2
   Sizes = {5}
   RelSizes = FALSE
-  MaxRandSize = 0
+  MaxRandPk = 0
   Rates <- RatesAll
   Starts <- StartsWrap
   Deltas <- DeltasPts
